@@ -19,6 +19,8 @@ pub enum OpKind {
     FetchAdd,
     FetchSub,
     CasWeak,
+    CasStrong,
+    FetchOther,
     Lock,
     Unlock,
     RLock,
@@ -108,6 +110,47 @@ impl AtomicU64 {
     pub fn fetch_sub(&self, v: u64, ord: Ordering) -> u64 {
         step!(self.op(OpKind::FetchSub, ord, v), { let p = self.inner.fetch_sub(v, ord); (p, p, true) })
     }
+    pub fn compare_exchange(&self, cur: u64, new: u64, s: Ordering, f: Ordering) -> Result<u64, u64> {
+        let mut op = self.op(OpKind::CasStrong, s, new);
+        op.ord_fail = Some(f);
+        op.b = cur;
+        step!(op, {
+            let r = self.inner.compare_exchange(cur, new, s, f);
+            (r, match r { Ok(v) | Err(v) => v }, r.is_ok())
+        })
+    }
+    pub fn fetch_update<F: FnMut(u64) -> Option<u64>>(&self, set: Ordering, fetch: Ordering, mut f: F) -> Result<u64, u64> {
+        // same shape as std: a load followed by a compare-exchange loop, each a reported step
+        let mut prev = self.load(fetch);
+        while let Some(next) = f(prev) {
+            match self.compare_exchange_weak(prev, next, set, fetch) {
+                x @ Ok(_) => return x,
+                Err(next_prev) => prev = next_prev,
+            }
+        }
+        Err(prev)
+    }
+    pub fn fetch_max(&self, v: u64, ord: Ordering) -> u64 {
+        step!(self.op(OpKind::FetchOther, ord, v), { let p = self.inner.fetch_max(v, ord); (p, p, true) })
+    }
+    pub fn fetch_min(&self, v: u64, ord: Ordering) -> u64 {
+        step!(self.op(OpKind::FetchOther, ord, v), { let p = self.inner.fetch_min(v, ord); (p, p, true) })
+    }
+    pub fn fetch_and(&self, v: u64, ord: Ordering) -> u64 {
+        step!(self.op(OpKind::FetchOther, ord, v), { let p = self.inner.fetch_and(v, ord); (p, p, true) })
+    }
+    pub fn fetch_or(&self, v: u64, ord: Ordering) -> u64 {
+        step!(self.op(OpKind::FetchOther, ord, v), { let p = self.inner.fetch_or(v, ord); (p, p, true) })
+    }
+    pub fn fetch_xor(&self, v: u64, ord: Ordering) -> u64 {
+        step!(self.op(OpKind::FetchOther, ord, v), { let p = self.inner.fetch_xor(v, ord); (p, p, true) })
+    }
+    pub fn get_mut(&mut self) -> &mut u64 {
+        self.inner.get_mut()
+    }
+    pub fn into_inner(self) -> u64 {
+        self.inner.into_inner()
+    }
     pub fn compare_exchange_weak(&self, cur: u64, new: u64, s: Ordering, f: Ordering) -> Result<u64, u64> {
         let mut op = self.op(OpKind::CasWeak, s, new);
         op.ord_fail = Some(f);
@@ -150,6 +193,49 @@ impl AtomicI64 {
     pub fn fetch_sub(&self, v: i64, ord: Ordering) -> i64 {
         step!(self.op(OpKind::FetchSub, ord, v), { let p = self.inner.fetch_sub(v, ord); (p, p as u64, true) })
     }
+    pub fn swap(&self, v: i64, ord: Ordering) -> i64 {
+        step!(self.op(OpKind::Swap, ord, v), { let p = self.inner.swap(v, ord); (p, p as u64, true) })
+    }
+    pub fn compare_exchange(&self, cur: i64, new: i64, s: Ordering, f: Ordering) -> Result<i64, i64> {
+        let mut op = self.op(OpKind::CasStrong, s, new);
+        op.ord_fail = Some(f);
+        op.b = cur as u64;
+        step!(op, {
+            let r = self.inner.compare_exchange(cur, new, s, f);
+            (r, match r { Ok(v) | Err(v) => v as u64 }, r.is_ok())
+        })
+    }
+    pub fn compare_exchange_weak(&self, cur: i64, new: i64, s: Ordering, f: Ordering) -> Result<i64, i64> {
+        let mut op = self.op(OpKind::CasWeak, s, new);
+        op.ord_fail = Some(f);
+        op.b = cur as u64;
+        step!(op, {
+            let r = self.inner.compare_exchange(cur, new, s, f);
+            (r, match r { Ok(v) | Err(v) => v as u64 }, r.is_ok())
+        })
+    }
+    pub fn fetch_update<F: FnMut(i64) -> Option<i64>>(&self, set: Ordering, fetch: Ordering, mut f: F) -> Result<i64, i64> {
+        let mut prev = self.load(fetch);
+        while let Some(next) = f(prev) {
+            match self.compare_exchange_weak(prev, next, set, fetch) {
+                x @ Ok(_) => return x,
+                Err(next_prev) => prev = next_prev,
+            }
+        }
+        Err(prev)
+    }
+    pub fn fetch_max(&self, v: i64, ord: Ordering) -> i64 {
+        step!(self.op(OpKind::FetchOther, ord, v), { let p = self.inner.fetch_max(v, ord); (p, p as u64, true) })
+    }
+    pub fn fetch_min(&self, v: i64, ord: Ordering) -> i64 {
+        step!(self.op(OpKind::FetchOther, ord, v), { let p = self.inner.fetch_min(v, ord); (p, p as u64, true) })
+    }
+    pub fn get_mut(&mut self) -> &mut i64 {
+        self.inner.get_mut()
+    }
+    pub fn into_inner(self) -> i64 {
+        self.inner.into_inner()
+    }
 }
 
 fn lock_op(kind: OpKind, addr: usize) -> Op {
@@ -176,6 +262,19 @@ impl<T> Mutex<T> {
     }
     pub fn addr(&self) -> usize {
         self as *const _ as usize
+    }
+    pub fn get_mut(&mut self) -> Result<&mut T, PoisonError> {
+        self.inner.get_mut().map_err(|_| PoisonError)
+    }
+    pub fn into_inner(self) -> Result<T, PoisonError> {
+        self.inner.into_inner().map_err(|_| PoisonError)
+    }
+    pub fn is_poisoned(&self) -> bool {
+        self.inner.is_poisoned()
+    }
+    /// Reported as a `Lock` step; the scheduler only grants it when the lock is free, so it succeeds.
+    pub fn try_lock(&self) -> Result<MutexGuard<'_, T>, PoisonError> {
+        self.lock()
     }
     pub fn lock(&self) -> Result<MutexGuard<'_, T>, PoisonError> {
         let addr = self.addr();
@@ -226,6 +325,20 @@ impl<T> RwLock<T> {
     }
     pub fn addr(&self) -> usize {
         self as *const _ as usize
+    }
+    pub fn get_mut(&mut self) -> &mut T {
+        self.inner.get_mut()
+    }
+    pub fn into_inner(self) -> T {
+        self.inner.into_inner()
+    }
+    /// Reported as an `RLock` step (granted only when no writer holds the lock).
+    pub fn try_read(&self) -> Option<RwLockReadGuard<'_, T>> {
+        Some(self.read())
+    }
+    /// Reported as a `WLock` step (granted only when the lock is free).
+    pub fn try_write(&self) -> Option<RwLockWriteGuard<'_, T>> {
+        Some(self.write())
     }
     pub fn read(&self) -> RwLockReadGuard<'_, T> {
         let addr = self.addr();
